@@ -26,6 +26,13 @@ Theorem C03_reachable : forall ops t, In t (trees (run ops empty_world)) -> sib_
 Proof. intros ops t Ht. exact (C03_invariant ops empty_world t WFw_empty Ht). Qed.
 Print Assumptions C03_reachable.
 
+(* ---- the library's uniqueness test (Tree._register: a clone with the same parent) is exactly
+   the collision predicate ---- *)
+Theorem C03_uniqueness_test_exact : forall t p ch d, WF t -> children_of p (forest_of t) = Some ch ->
+  (collides t p d = true <-> sibling_with (forest_of t) p d 0).
+Proof. exact collides_iff_sibling. Qed.
+Print Assumptions C03_uniqueness_test_exact.
+
 (* ---- refusal, route by route ---- *)
 (* add_child(data) / add(data) *)
 Theorem C03_add_refused : forall w ti p d explicit k b t id,
@@ -45,6 +52,15 @@ Theorem C03_add_never_succeeds : forall w ti p d explicit k b t id,
   exists e, fst (step w (OAdd ti p d explicit k b)) = Err e /\ (e = EUnique \/ e = EValue).
 Proof. exact add_never_succeeds. Qed.
 Print Assumptions C03_add_never_succeeds.
+
+(* and no over-refusal: without a collision the add goes through *)
+Theorem C03_add_accepted : forall w ti p d explicit k b t id ch,
+  WFw w -> get_tree w ti = Some t -> children_of p (forest_of t) = Some ch ->
+  (match explicit with Some e => Some e | None => calc_id (calc t) d end) = Some id ->
+  ~ sibling_with (forest_of t) p id 0 -> before_ok (norm_before b) ch = true ->
+  fst (step w (OAdd ti p d explicit k b)) = Ok [next w].
+Proof. exact add_accepted. Qed.
+Print Assumptions C03_add_accepted.
 
 (* append_child / prepend_child / prepend_sibling / append_sibling *)
 Theorem C03_append_child_refused : forall w ti n d explicit k t id,
